@@ -285,10 +285,61 @@ class Interp:
                 else:
                     pass
             except Unsupported as e:
+                # closed-term evaluation: a module-level constant built only from literals and constructors of repo classes
+                # whose modules import under CPython (e.g. PATHS = {"btc": BIP32Path("m/44'/0'/0'/0/0"), ...}) is computed
+                # by CPython from the REAL classes and reflected into interpreter values
+                if isinstance(s, ast.Assign) and len(s.targets) == 1 and isinstance(s.targets[0], ast.Name):
+                    try:
+                        env[s.targets[0].id] = self.native_constant(s.value, env)
+                        continue
+                    except Exception:       # noqa
+                        pass
                 # leave the names opaque; using them later makes the user unsupported
                 for n in ast.walk(s):
                     if isinstance(n, ast.Name) and isinstance(n.ctx, ast.Store):
                         env[n.id] = Opaque("module-level:%s (%s)" % (n.id, e))
+
+    def native_constant(self, expr, env):
+        import importlib
+        import sys as _sys
+        mw = self.repo_root
+        if mw not in _sys.path:
+            _sys.path.insert(0, mw)
+        ns = {}
+        for n in ast.walk(expr):
+            if isinstance(n, ast.Name):
+                v = env.get(n.id)
+                if isinstance(v, ClassVal) and v.node is not None and getattr(v.module, "name", None):
+                    ns[n.id] = getattr(importlib.import_module(v.module.name), v.name)
+                elif isinstance(v, (int, str, bytes, bool)) or v is None:
+                    ns[n.id] = v
+                else:
+                    raise Unsupported("name %s in a module-level constant" % n.id)
+            elif isinstance(n, (ast.Attribute, ast.Lambda, ast.Await, ast.Yield, ast.NamedExpr)):
+                raise Unsupported("construct in a module-level constant")
+        val = eval(compile(ast.Expression(body=expr), "<module-level constant>", "eval"), {"__builtins__": {}}, ns)
+        st = State()
+        r = self.reflect(val, st, 0)
+        CONST_HEAP.update(st.heap)
+        return r
+
+    def reflect(self, v, st, depth):
+        if depth > 6:
+            raise Unsupported("reflect depth")
+        if v is None or isinstance(v, (bool, int, str, bytes)):
+            return v
+        if isinstance(v, tuple):
+            return tuple(self.reflect(x, st, depth + 1) for x in v)
+        if isinstance(v, list):
+            return st.new_list([self.reflect(x, st, depth + 1) for x in v])
+        if isinstance(v, dict):
+            return st.new_dict({k: self.reflect(x, st, depth + 1) for k, x in v.items()})
+        modname = type(v).__module__
+        mod = self.load_module(modname) if hasattr(self, "load_module") else None
+        cls = mod.env.get(type(v).__name__) if mod is not None else None
+        if not isinstance(cls, ClassVal):
+            raise Unsupported("cannot reflect %r" % (type(v),))
+        return st.new_obj(cls, {k: self.reflect(x, st, depth + 1) for k, x in vars(v).items()})
 
     def func_kind(self, node):
         for d in node.decorator_list:
